@@ -124,6 +124,43 @@ func (w *world) exec(ctx context.Context, wr io.Writer, o Op) (context.Context, 
 	return ctx, nil
 }
 
+type valueKey struct{}
+
+// derive makes a further Go context of the same rendering context.
+func derive(ctx context.Context, o Op) context.Context {
+	switch o.Text {
+	case "nonce":
+		return templ.WithNonce(ctx, o.Nonce)
+	case "children":
+		return templ.WithChildren(ctx, templ.NopComponent)
+	case "clear":
+		return templ.ClearChildren(ctx)
+	case "value":
+		return context.WithValue(ctx, valueKey{}, 1)
+	default:
+		c, cancel := context.WithCancel(ctx)
+		_ = cancel // kept alive for the whole history: cancelling would make generated templates return early
+		return c
+	}
+}
+
+// aliases are the Go contexts of one rendering context; do performs one history entry through the chosen one.
+type aliases []context.Context
+
+func (a *aliases) do(w *world, wr io.Writer, co COp) error {
+	via := co.Op.Via
+	if via < 0 || via >= len(*a) {
+		via = 0
+	}
+	if co.Op.Tag == "D" {
+		*a = append(*a, derive((*a)[via], co.Op))
+		return nil
+	}
+	ctx, err := w.exec((*a)[via], wr, co.Op)
+	(*a)[via] = ctx
+	return err
+}
+
 type implOut struct {
 	Docs   []string // one document per context
 	Sheets []string // stylesheet endpoint body per context ("" without middleware)
@@ -225,12 +262,12 @@ func runImpl(h Hist) (out implOut) {
 						setErr(fmt.Sprint("panic: ", r))
 					}
 				}()
+				al := aliases{ctx}
 				for _, co := range h.Ops {
 					if co.Ctx != k {
 						continue
 					}
-					var err error
-					if ctx, err = w.exec(ctx, bufs[k], co.Op); err != nil {
+					if err := al.do(w, bufs[k], co); err != nil {
 						setErr(err.Error())
 						return
 					}
@@ -252,14 +289,12 @@ func runImpl(h Hist) (out implOut) {
 		return out
 	}
 	w := &world{handles: map[int]*templ.OnceHandle{}}
-	ctxs := make([]context.Context, len(h.Cfgs))
+	ctxs := make([]aliases, len(h.Cfgs))
 	for i, c := range h.Cfgs {
-		out.Sheets[i] = in.serve(c, func(ctx context.Context) { ctxs[i] = ctx })
+		out.Sheets[i] = in.serve(c, func(ctx context.Context) { ctxs[i] = aliases{ctx} })
 	}
 	for _, co := range h.Ops {
-		var err error
-		ctxs[co.Ctx], err = w.exec(ctxs[co.Ctx], bufs[co.Ctx], co.Op)
-		if err != nil {
+		if err := ctxs[co.Ctx].do(w, bufs[co.Ctx], co); err != nil {
 			setErr(err.Error())
 			break
 		}
